@@ -4,6 +4,7 @@ import TomlVerif.Driver.C11
 import TomlVerif.Driver.Canon
 import TomlVerif.Driver.Stack
 import TomlVerif.Driver.C15
+import TomlVerif.Driver.C04
 
 open TomlVerif
 
@@ -16,6 +17,7 @@ def dispatch (mode : String) (line : String) : String :=
   | "val" => Driver.valLine line
   | "stack" => Driver.stackLine line
   | "c15" => Driver.c15 line
+  | "c04" => Driver.c04 line
   | _ => "bad-mode"
 
 partial def loop (mode : String) (h : IO.FS.Stream) (out : IO.FS.Stream) : IO Unit := do
